@@ -117,6 +117,7 @@ class RpcDispatcher(object):
         self.k = k
         self.queue = []
         self.pending = []      # (id, callable)
+        self.polled = set()
     def readable(self): return bool(self.queue)
     def writable(self): return bool(self.pending)
     def handle_read_event(self):
@@ -147,6 +148,10 @@ class RpcDispatcher(object):
         still = []
         for cid, fn in self.pending:
             self.k.in_rpc = cid
+            if cid not in self.polled:
+                self.polled.add(cid)
+                snap = self.k.snapshot()
+                self.k.rec('rpc-first-poll', id=cid, procs=snap['procs'], mood=snap['mood'])
             try:
                 res = fn()
                 if res is NOT_DONE_YET:
